@@ -396,18 +396,21 @@ def mode_feature(mode_text: bytes):
         return "whitespace"
     if mode_text[:1] == b"-":
         return "minus-sign"
+    core = mode_text[1:] if mode_text[:1] == b"+" else mode_text
+    if core and all(c in b"01234567" for c in core):
+        if int(core, 8) > 0xFFFFFFFF:
+            return "value-above-u32"
+        if core is not mode_text:
+            return "plus-sign"
+        if mode_text[:1] == b"0":
+            return "leading-zero"
+        return None
     if mode_text[:1] == b"+":
         return "plus-sign"
     if b"_" in mode_text:
         return "underscore"
     if mode_text[:2].lower() in (b"0o", b"0x", b"0b"):
         return "radix-prefix"
-    if all(c in b"01234567" for c in mode_text):
-        if int(mode_text, 8) > 0xFFFFFFFF:
-            return "value-above-u32"
-        if mode_text[:1] == b"0":
-            return "leading-zero"
-        return None
     return "non-octal-character"
 
 
